@@ -51,6 +51,8 @@ type Ctx struct {
 	Stats       map[string]any
 	parentOf    map[*ssa.Function]*ssa.MakeClosure
 	InlineNotes []string
+	Renamed     map[string]string // rel|Recv.reviewedName -> current name
+	IdentNow    map[string]string // rel|reviewedIdent -> current name (package-level vars, consts, types)
 }
 
 var depBuild = []string{
@@ -134,10 +136,32 @@ func Load(cfg LoadCfg) (*Ctx, error) {
 	}
 	known := loadKnownFuncs()
 	if known == nil || os.Getenv("FPCHECK_NO_INLINE") != "" {
+		fieldAlias = map[*types.Var]string{}
+		identSubst, renameSubst, recvAlias = nil, nil, map[string]string{}
 		return c, nil
 	}
 	seq := 0
 	var notes []string
+	notes = append(notes, detectIdentRenames(c)...)
+	recvAlias = map[string]string{}
+	for k, now := range c.IdentNow {
+		rel := k[:strings.Index(k, "|")]
+		recvAlias[rel+"|"+now] = k[strings.Index(k, "|")+1:]
+	}
+	identNow := c.IdentNow
+	renamed, rnotes := detectRenames(c, known)
+	notes = append(notes, rnotes...)
+	setRenames(c, renamed)
+	if len(renamed) > 0 {
+		known2 := map[string]bool{}
+		for k := range known {
+			known2[k] = true
+		}
+		for nk := range renamed {
+			known2[nk] = true
+		}
+		known = known2
+	}
 	for round := 0; round < 5; round++ {
 		ov, ns := inlineNewHelpers(c, known, &seq)
 		notes = append(notes, ns...)
@@ -163,12 +187,54 @@ func Load(cfg LoadCfg) (*Ctx, error) {
 			break
 		}
 		c = c2
+		c.IdentNow = identNow
+		setRenames(c, renamed)
 	}
+	notes = append(notes, detectFieldRenames(c)...)
 	c.InlineNotes = uniq(notes)
 	if seq > 0 {
 		dropUnreferencedNewFuncs(c, known)
 	}
 	return c, nil
+}
+
+// renameSubst: rendered qualified names of renamed functions -> their reviewed names (applied by shorten()).
+var renameSubst [][2]string
+
+// setRenames installs the rename table: name lookups by reviewed name find the renamed declaration, and rendered names
+// use the reviewed name.
+func setRenames(c *Ctx, renamed map[string]string) {
+	renameSubst = nil
+	c.Renamed = map[string]string{}
+	for nk, ok := range renamed {
+		rel := nk[:strings.Index(nk, "|")]
+		split := func(k string) (string, string) {
+			s := k[strings.Index(k, "|")+1:]
+			return s[:strings.LastIndex(s, ".")], s[strings.LastIndex(s, ".")+1:]
+		}
+		recv, newName := split(nk)
+		_, oldName := split(ok)
+		c.Renamed[rel+"|"+recv+"."+oldName] = newName
+		pkgName := ""
+		path := modPath
+		if rel != "." && rel != "" {
+			path = modPath + "/" + filepath.ToSlash(rel)
+		}
+		if p := c.ByPath[path]; p != nil {
+			pkgName = p.Name
+		}
+		if pkgName == "" {
+			continue
+		}
+		q := shortenRaw(path)
+		_ = pkgName
+		if recv == "" {
+			renameSubst = append(renameSubst, [2]string{q + "." + newName, q + "." + oldName})
+		} else {
+			renameSubst = append(renameSubst, [2]string{"(*" + q + "." + recv + ")." + newName, "(*" + q + "." + recv + ")." + oldName})
+			renameSubst = append(renameSubst, [2]string{"(" + q + "." + recv + ")." + newName, "(" + q + "." + recv + ")." + oldName})
+		}
+	}
 }
 
 // dropUnreferencedNewFuncs removes from the analysed function set those new helpers whose every call was expanded in
@@ -383,16 +449,32 @@ func (c *Ctx) Func(pkg, name string) *ssa.Function {
 	if p == nil {
 		return nil
 	}
-	return p.Func(name)
+	if f := p.Func(name); f != nil {
+		return f
+	}
+	if nn, ok := c.Renamed[relKey(pkg)+"|."+name]; ok {
+		return p.Func(nn)
+	}
+	return nil
+}
+
+func relKey(pkg string) string {
+	if pkg == "" {
+		return "."
+	}
+	return pkg
 }
 
 // Method resolves a method on named type T (pointer or value receiver).
 func (c *Ctx) Method(pkg, typ, name string) *ssa.Function {
+	if nn, ok := c.Renamed[relKey(pkg)+"|"+typ+"."+name]; ok {
+		name = nn
+	}
 	p := c.Pkg(pkg)
 	if p == nil {
 		return nil
 	}
-	obj := p.Pkg.Scope().Lookup(typ)
+	obj := p.Pkg.Scope().Lookup(c.nowName(pkg, typ))
 	if obj == nil {
 		return nil
 	}
@@ -421,7 +503,7 @@ func (c *Ctx) Named(pkg, typ string) *types.Named {
 	if p == nil {
 		return nil
 	}
-	obj := p.Pkg.Scope().Lookup(typ)
+	obj := p.Pkg.Scope().Lookup(c.nowName(pkg, typ))
 	if obj == nil {
 		return nil
 	}
@@ -435,7 +517,7 @@ func (c *Ctx) Global(pkg, name string) *ssa.Global {
 	if p == nil {
 		return nil
 	}
-	g, _ := p.Members[name].(*ssa.Global)
+	g, _ := p.Members[c.nowName(pkg, name)].(*ssa.Global)
 	return g
 }
 
